@@ -291,7 +291,77 @@ def rule_extend_map(body, counts):
         pos = m.start() + len(rep)
 
 
+def rule_iter_map(body, counts):
+    """R5d: `Y.iter().map(|p| E).collect()` -> block building a fresh Vec with an index loop;
+    R5e: `X.extend(Y.iter().map(|p| E));` -> index loop pushing onto X.
+    Y must be a plain place expression.  Assumes slice::Iter yields &Y[0], &Y[1], ... (A1)."""
+    pat = re.compile(r"(\w+(?:\s*\.\s*\w+)*?)\s*\.iter\(\)\s*\.map\(")
+    pos = 0
+    while True:
+        m = pat.search(body, pos)
+        if not m:
+            return body
+        y = re.sub(r"\s+", "", m.group(1))
+        mo = m.end() - 1
+        mc = match_close(body, mo)
+        clo = body[mo + 1:mc].strip()
+        mc2 = re.match(r"^\|\s*(\w+)\s*\|\s*(.*)$", clo, re.S)
+        if not mc2:
+            pos = m.end()
+            continue
+        p, e = mc2.group(1), mc2.group(2).strip()
+        rest = body[mc + 1:]
+        mcol = re.match(r"\s*\.collect\(\)", rest)
+        if mcol:
+            rep = (f"{{ let mut vx_v = Vec::new(); let mut vx_i: usize = 0; while vx_i < {y}.len() "
+                   f"{{ let {p} = &{y}[vx_i]; vx_v.push({e}); vx_i += 1; }} vx_v }}")
+            body = body[:m.start()] + rep + rest[mcol.end():]
+            counts["R5d"] = counts.get("R5d", 0) + 1
+            pos = m.start() + len(rep)
+            continue
+        # extend form: look backwards for `X.extend(` directly before the match
+        pre = body[:m.start()]
+        mx = re.search(r"(\w+(?:\s*\.\s*\w+)*?)\s*\.extend\(\s*$", pre)
+        mend = re.match(r"\s*,?\s*\)\s*;", rest)
+        if mx and mend:
+            x = re.sub(r"\s+", "", mx.group(1))
+            rep = (f"{{ let mut vx_i: usize = 0; while vx_i < {y}.len() "
+                   f"{{ let {p} = &{y}[vx_i]; {x}.push({e}); vx_i += 1; }} }}")
+            body = pre[:mx.start()] + rep + rest[mend.end():]
+            counts["R5e"] = counts.get("R5e", 0) + 1
+            pos = mx.start() + len(rep)
+            continue
+        pos = m.end()
+
+
+def rule_raw_vec(body, counts):
+    """R4: `let mut V = ManuallyDrop::new(unsafe { Vec::from_raw_parts(self.F.0, L, self.F.1) });`
+    The field F is re-typed `Vec<T>` in the emitted struct; the reconstruction becomes the proof
+    obligation `F@.len() == L` (from_raw_parts' length precondition), every later use of the local
+    V becomes `self.F`, and the write-back `self.F = (V.as_mut_ptr(), V.capacity());` is deleted.
+    Drops: pointer identity, capacity and the write-back after growth (picked up by engine K)."""
+    pat = re.compile(r"let\s+mut\s+(\w+)\s*=\s*ManuallyDrop::new\(\s*unsafe\s*\{\s*Vec::from_raw_parts\(\s*"
+                     r"self\.(\w+)\.0\s*,\s*([^,]+?)\s*,\s*self\.(\w+)\.1\s*,?\s*\)\s*\}\s*,?\s*\)\s*;", re.S)
+    while True:
+        m = pat.search(body)
+        if not m:
+            return body
+        v, f, length, f2 = m.group(1), m.group(2), m.group(3), m.group(4)
+        if f != f2:
+            raise Inconclusive("unsupported construct: from_raw_parts mixes two fields")
+        head = body[:m.start()] + f"vx_raw_vec_len(&self.{f}, {length});"
+        tail = body[m.end():]
+        tail = re.sub(r"(?<![\w\.])" + re.escape(v) + r"\b", f"self.{f}", tail)
+        tail, k = re.subn(r"self\." + f + r"\s*=\s*\(\s*self\." + f + r"\.as_mut_ptr\(\)\s*,\s*self\." + f
+                          + r"\.capacity\(\)\s*,?\s*\)\s*;", f"/* R4: write-back of self.{f} dropped */", tail)
+        counts["R4"] = counts.get("R4", 0) + 1
+        counts["R4.writeback_dropped"] = counts.get("R4.writeback_dropped", 0) + k
+        body = head + tail
+
+
 FUNC_RULES = [
+    ("R4", rule_raw_vec, "raw-parts encoding of a Vec field (pointer, capacity, write-back); the from_raw_parts length precondition becomes a proof obligation"),
+    ("R5d/e", rule_iter_map, "iterator adapter Y.iter().map(f) in collect()/extend() -> explicit index loop (assumes slice iteration order)"),
     ("R5", rule_extend_map, "iterator adapter in Vec::extend(iter.map(f)) -> explicit push loop (assumes Extend pushes in iteration order)"),
 ]
 
@@ -567,6 +637,7 @@ class Emitter:
     def run(self):
         u = self.unit
         self.emit("// GENERATED on every run by /verif/vx from the working tree of the repository. Do not edit.")
+        self.emit("#![feature(allocator_api)]")
         self.emit("#![allow(unused_imports, unused_variables, unused_mut, dead_code, unused_unsafe, unused_parens, unused_braces)]")
         self.emit("use vstd::prelude::*;")
         self.emit("verus! {")
